@@ -53,8 +53,18 @@ def main():
                 r1 = sh(["/venv/bin/python", os.path.join(d, "demo.py")], cwd=tmp, env=env)
                 row["demo_with_change_exit"] = r1.returncode
             if a.suite:
-                rs = sh(["/venv/bin/python", "-m", "pytest", "-q", "-p", "no:cacheprovider", "-x", "--timeout=900", "test"], cwd=tmp, env=env)
+                rs = sh(["/venv/bin/python", "-m", "pytest", "-q", "-p", "no:cacheprovider", "-rf", "--timeout=900", "test"], cwd=tmp, env=env)
                 row["suite_tail"] = rs.stdout.strip().splitlines()[-1] if rs.stdout.strip() else rs.stderr[-200:]
+                failed = [l.split(" ")[1] for l in rs.stdout.splitlines() if l.startswith("FAILED ")]
+                # randomised tests fail now and then on the unchanged tree too: a failure counts only if it persists
+                persistent = []
+                for tid in failed:
+                    again = [sh(["/venv/bin/python", "-m", "pytest", "-q", "-p", "no:cacheprovider", tid], cwd=tmp, env=env).returncode for _ in range(3)]
+                    if all(rc != 0 for rc in again):
+                        persistent.append(tid)
+                row["suite_failed_once"] = failed
+                row["suite_failed_persistently"] = persistent
+                row["suite_tail"] += f" | persistent failures: {persistent or 'none'}"
             props = ALL if a.all_props else [meta["property"]] + [p for p in meta.get("also_check", [])]
             for pid in props:
                 t0 = time.time()
